@@ -9,6 +9,7 @@ Inductive event :=
 | EConnectFail (k : N)
 | ESql (id : N) (sql : str)
 | ECmd (cmd : str)
+| EBackground (cmd : str)    (* `system` command ending in '&': spawned, not waited for, run_command not called *)
 | ESleep (d : N)
 | EShutdown (id : N)
 | EPanicked.                 (* the implementation would panic here (substitution, known finding D9) *)
@@ -84,6 +85,16 @@ Fixpoint bump_N (k : N) (l : list (N * N)) : list (N * N) :=
   end.
 
 Definition connect_failed_msg (k : N) : str := lit "connect failed " ++ dec k.
+
+(* background `system` commands:
+     let is_background = command.trim().ends_with('&');
+     if is_background { command = command.trim_end_matches('&').trim().to_string(); }
+   38 = '&'.  trim_end_matches is applied to the UNtrimmed command, so for "x & " nothing is
+   stripped and the command handed to bash is "x &" (quirk kept on purpose). *)
+Definition AMP : N := 38.
+Definition is_background (c : str) : bool := ends_with_cp AMP (trim c).
+Definition strip_amps (c : str) : str := trim_end_matches_cp AMP c.
+Definition background_cmd (c : str) : str := trim (strip_amps c).
 
 (* the for-loop of run_async, generic in what one attempt does:
    for _ in 0..n { r = attempt(); if r is ok return r; sleep(d); last = r }  return last *)
@@ -185,8 +196,13 @@ Section Runner.
              | SubPanic => ([EPanicked], st, w, ONothing)
              | SubErr m => ([], st, w, OSystem None true)
              | SubOk cmd' =>
-                 let '(a, w1) := sys_request w in
-                 ([ECmd cmd'], st, w1, apply_system ex a)
+                 if is_background cmd' then
+                   (* cmd.spawn() without waiting: the run_command hook is not called, nothing is
+                      read from the scripted shell; spawning is assumed to succeed *)
+                   ([EBackground (background_cmd cmd')], st, w, OSystem None false)
+                 else
+                   let '(a, w1) := sys_request w in
+                   ([ECmd cmd'], st, w1, apply_system ex a)
              end
     | RSleep _ d => ([ESleep d], st, w, ONothing)
     | RControl c =>
